@@ -766,14 +766,15 @@ class EnumMapper(Mapper):
         return list(params.items())
 
     def to_schema(self, definitions, serialization_mapper):
-        def adjust(val) -> Union[str, int, float]:
+        def adjust(val) -> Union[str, int, float, None]:
             if isinstance(val, enum.Enum):
                 return (
                     val.value
                     if getattr(self.value, "serialization_by_value", False)
                     else val.name
                 )
-            if not isinstance(val, (int, str, float)):
+            # None is JSON null, a legal enum member (True/False are ints already)
+            if val is not None and not isinstance(val, (int, str, float)):
                 raise TypeError("enum must be an enum, str, or number")
             return val
 
